@@ -101,6 +101,54 @@ class PathExplorer:
         self.states = 0
         self.pruned = 0
 
+    @staticmethod
+    def _feasible(facts):
+        """An ("anyopp", keys, v) fact says: not all of `keys` have discriminant v.  A state in which all of them do is infeasible."""
+        for f in facts:
+            if f[0] == "anyopp" and all(("d", k, f[2]) in facts for k in f[1]):
+                return False
+        return True
+
+    def _all_over_array(self, call):
+        """`[&a, &b, &c].iter().all(|x| x.is_err())` (is_ok / is_some / is_none alike): -> ([canonical keys of a, b, c], discriminant value the
+        predicate asks for), else None."""
+        import re
+        from engine import PASS_THROUGH
+        body = self.body
+        if not call.decl.endswith("std::iter::Iterator::all") and call.decl != "std::iter::Iterator::all":
+            return None
+        if len(call.args) != 2:
+            return None
+        elems = None
+        for lf in body.origins(call.args[0], passthrough=PASS_THROUGH):
+            if lf["kind"] == "agg" and lf["stmt"]["rv"].get("ak") == "array":
+                elems = lf["stmt"]["rv"]["ops"]
+            else:
+                return None
+        cbp = None
+        for lf in body.origins(call.args[1], passthrough={}):
+            if lf["kind"] == "agg" and lf["stmt"]["rv"].get("ak") == "closure":
+                cbp = lf["stmt"]["rv"]["closure"]
+        facts_ = getattr(body, "facts", None)
+        cb = facts_.bodies.get(cbp) if (facts_ is not None and cbp) else None
+        if not elems or cb is None:
+            return None
+        calls = [c for c in cb.calls()]
+        if len(calls) != 1 or calls[0].decl not in BOOL_TESTS or BOOL_TESTS[calls[0].decl][0] != "d":
+            return None
+        # the closure returns that test of its own parameter
+        if calls[0].dest is None or calls[0].dest["l"] != 0:
+            return None
+        if not any(lf["kind"] == "arg" and lf["n"] == 2 for lf in cb.origins(calls[0].args[0])):
+            return None
+        keys = []
+        for o in elems:
+            k_ = canon(body, o)
+            if k_ is None:
+                return None
+            keys.append(k_)
+        return keys, BOOL_TESTS[calls[0].decl][1]
+
     def run(self, max_states=400000, start=0, blocked=frozenset(), blocked_edges=frozenset()):
         """Explore from `start` (default: entry) with no initial facts; blocks in `blocked` are dead ends.
         self.visited_bbs holds every block some abstract state reached."""
@@ -117,6 +165,9 @@ class PathExplorer:
                 raise RuntimeError("state explosion")
             for nxt in self.step(node):
                 if nxt[0] is not None and (nxt[0] in blocked or (node[0], nxt[0]) in blocked_edges):
+                    continue
+                if not self._feasible(nxt[1]):
+                    self.pruned += 1
                     continue
                 if nxt[0] is not None:
                     self.visited_bbs.add(nxt[0])
@@ -321,6 +372,12 @@ class PathExplorer:
                     if not self._is_unreachable(info["otherwise"]):
                         out.append((info["otherwise"], nf, flags, nexted, ret))
                 return out
+            if info["kind"] == "bool" and info["call"].decl == "std::iter::Iterator::all":
+                ao = self._all_over_array(info["call"])
+                if ao is not None:
+                    keys_, v_ = ao
+                    return [(info["true"], facts | {("d", k_, v_) for k_ in keys_}, flags, nexted, ret),
+                            (info["false"], facts | {("anyopp", tuple(keys_), v_)}, flags, nexted, ret)]
             if info["kind"] == "bool" and info["call"].decl in BOOL_TESTS:
                 kind, tv = BOOL_TESTS[info["call"].decl]
                 key = canon(body, info["call"].args[0])
